@@ -42,7 +42,7 @@ fn vtype_of(s: &FnSpec) -> u8 {
 }
 
 pub fn in_pool(s: &FnSpec) -> bool {
-    !(s.is_result && s.max_memory.is_some())
+    !(s.is_result && s.max_memory.is_some()) && s.family != "nested"
 }
 
 fn mask_of(op: &Op2, f: u16, reg: &str) -> Option<u8> {
